@@ -5,6 +5,11 @@ V = os.path.dirname(os.path.dirname(os.path.abspath(__file__)))
 
 # id -> dict(level, engine, technique, text, note, design)
 CLAIMED = {
+ "C03": dict(level="exploration", engine="lib-inproc + vsh-virtual",
+   technique="reference-model monitor: exact i128 evaluator over generated expression trees vs yash_arith::eval (value, error, side effects), panic monitor on arbitrary text",
+   text="Exhaustive operator x boundary-operand tables (unary, binary, compound assignment, ++/--), exhaustive two-operator shapes printed with minimal parentheses (precedence/associativity), short-circuit inertness table, variable-holds-constant agreement table, then seeded random trees to depth 6 with variables, totality inputs (token soup, mutations, Unicode), and a through-the-shell slice (probe $((expr)) in subshells on the virtual system).",
+   note="Trusted: models/arith.rs (exact evaluation, ISO C precedence). Accepts {exact value, error} for <<,>> of negatives and INT_MIN % -1; expressions with C-unspecified evaluation order and empty variable values are not generated.",
+   design="5/C03"),
  "C12": dict(level="exploration", engine="lib-inproc",
    technique="runtime invariant monitor + shadow model on the real JobList, breadth-first over all API histories to a fixpoint",
    text="Every history over the operation alphabet with at most 4 live jobs is executed on the real JobList (quick: depth 10; thorough: until no new table appears, i.e. the complete reachable state space for that alphabet); after every transition the property's invariants, the documented result of the operation and %%/%+/%-/%n resolution are asserted through the public API.",
